@@ -92,7 +92,7 @@ if prop == 'C06':
         if bad:
             finish_violation(bad[0], dict(common.case_payload(schema, tname, None, bad[1]),
                                           fault={'input': payload.hex(), 'endianness': e, 'descriptor': ['atheris']}))
-        if counters['execs'] % 5000 == 0:
+        if counters['execs'] % 1000 == 0:
             write_stats()
 
 elif prop == 'C13':
@@ -139,7 +139,7 @@ elif prop == 'C13':
             finish_violation('%s [%s]' % (res[1], res[2]),
                              {'isar': isar, 'kind': 'atheris', 'files': {main: text}, 'outs': outs, 'extra': [],
                               'patch': None, 'missing_input': False, 'bucket': res[2]})
-        if counters['execs'] % 2000 == 0:
+        if counters['execs'] % 100 == 0:
             write_stats()
 else:
     raise SystemExit('unknown property')
